@@ -428,8 +428,9 @@ class Analysis:
             for _ in range(pushed):
                 self._env.pop()
 
-    def comp_elem(self, fi, n, e, depth: int = 0):
-        """Value of one element of a comprehension (tuple structure kept)."""
+    def comp_elem(self, fi, n, e, depth: int = 0, dict_value: bool = False):
+        """Value of one element of a comprehension (tuple structure kept); for a dict comprehension the key, or -
+        with *dict_value* - the value."""
         dom = self.dom
         env: Dict[str, object] = {}
         self._env.append(env)
@@ -438,7 +439,7 @@ class Analysis:
                 el = dom.iter_elem(self, fi, n, g.iter, self.ev(fi, n, g.iter, depth + 1))
                 self._bind_target(env, g.target, el)
             if isinstance(e, ast.DictComp):
-                return self.ev(fi, n, e.key, depth + 1)
+                return self.ev(fi, n, e.value if dict_value else e.key, depth + 1)
             return self.ev(fi, n, e.elt, depth + 1)
         finally:
             self._env.pop()
@@ -575,6 +576,14 @@ class Analysis:
         self._stack.add(key)
         try:
             out = None
+            if local is not None:
+                # the local is a dict display / dict comprehension: its values
+                for x in self.du(fi).reaching(n, local):
+                    if x.kind == "assign" and isinstance(x.value, ast.DictComp) and not x.index:
+                        out = join(out, self.comp_elem(fi, x.node, x.value, depth + 1, dict_value=True))
+                    elif x.kind == "assign" and isinstance(x.value, ast.Dict) and not x.index:
+                        for v_ in x.value.values:
+                            out = join(out, self.ev(fi, x.node, v_, depth + 1))
             funcs = [fi]
             if field is not None and fi.cls is not None:
                 related = list(fi.cls.mro) + fi.cls.all_subclasses()
@@ -776,6 +785,12 @@ class Analysis:
                 real = obj.qualname
             elif kind == "class":
                 real = obj.qualname
+        if isinstance(c.func, ast.Attribute) and c.func.attr in ("values", "items") and not c.args:
+            cv = self._mapping_values(fi, n, c.func.value, depth + 1)
+            if cv is not None:
+                if c.func.attr == "values":
+                    return cv
+                return (flat(self.ev(fi, n, c.func.value, depth + 1)), cv)
         if isinstance(c.func, ast.Attribute) and c.func.attr in ("get", "pop", "setdefault") and c.args:
             # mapping populated by `m[k] = v` in this class: what is read out is one of the stored values
             cv = self._mapping_values(fi, n, c.func.value, depth + 1)
@@ -854,7 +869,7 @@ class Analysis:
                     pass
             if out is not None:
                 return out
-            return BOT if any(self._returns_something(t) for t in r.targets) else dom.OBJ
+            return BOT if any(self._returns_something(t) or t.is_generator() for t in r.targets) else dom.OBJ
         vals = list(args) + ([recv] if recv is not None else []) + [self.ev(fi, n, k.value, depth + 1) for k in c.keywords]
         return dom.unknown(vals)
 
